@@ -10,7 +10,9 @@
 (*   Q(q)      a query; it brings the object to the stage the answer needs      *)
 (*   U(s)      update_points / _observations / _residuals / _adjustment         *)
 (*   ALG(a)    set_algorithm: a new solver object, everything is invalid        *)
-(*   M0(t)     choice of the reference standard deviation used in statistics    *)
+(*   M0(t)     choice of the reference standard deviation used in statistics:   *)
+(*             the stored standard deviations of adjusted observations depend   *)
+(*             on it, the adjustment stage is invalid                           *)
 (*   CONF(p)   confidence probability                                           *)
 (*   APR(m)    a priori reference standard deviation: the weights, hence the    *)
 (*             project equations, depend on it                                  *)
@@ -46,7 +48,7 @@ After(f, op, arg, m0type, did) ==
   CASE op = "Q"      -> {Eval(f, Need(arg, m0type))}
     [] op = "U"      -> {Invalidate(f, StageNo(arg))}
     [] op = "ALG"    -> {AllInvalid}
-    [] op = "M0"     -> {f}
+    [] op = "M0"     -> {Invalidate(f, 4)}                           \* standard deviations stored with the adjustment depend on the m0 in use
     [] op = "CONF"   -> {f}
     [] op = "APR"    -> {Invalidate(f, 3)}                           \* the weights change: equations and adjustment are stale
     [] op = "RMABS"  -> {IF did THEN Invalidate(Eval(f, 3), 2) ELSE Eval(f, 3)}
